@@ -510,6 +510,33 @@ func uniformity(src *tmpl.Source) (lens []int, errs []uniErr) {
 		}
 		for _, cmd := range p.Cmds {
 			sole := soleIfOperand && len(p.Cmds) == 1 && len(cmd.Args) == 1
+			// a comparison of a variable with an integer constant k (and "not v") splits the
+			// iterations into at most k+2 kinds; k is added to the explored lengths
+			if id, ok := cmd.Args[0].(*parse.IdentifierNode); ok {
+				cmpConst := false
+				switch id.Ident {
+				case "eq", "ne", "lt", "le", "gt", "ge":
+					if len(cmd.Args) == 3 {
+						_, v1 := cmd.Args[1].(*parse.VariableNode)
+						_, v2 := cmd.Args[2].(*parse.VariableNode)
+						n1, c1 := cmd.Args[1].(*parse.NumberNode)
+						n2, c2 := cmd.Args[2].(*parse.NumberNode)
+						cmpConst = (v1 && c2 && n2.IsInt) || (v2 && c1 && n1.IsInt)
+					}
+				case "not":
+					cmpConst = len(cmd.Args) == 2
+				}
+				if cmpConst {
+					for _, a := range cmd.Args[1:] {
+						if v, ok := a.(*parse.VariableNode); ok && len(v.Ident) == 1 {
+							checkVar(v, true)
+						} else {
+							visitArg(a, false)
+						}
+					}
+					continue
+				}
+			}
 			for _, a := range cmd.Args {
 				visitArg(a, sole)
 			}
@@ -534,6 +561,17 @@ func uniformity(src *tmpl.Source) (lens []int, errs []uniErr) {
 			visitPipe(n.Pipe, false)
 			visitNode(n.List)
 			visitNode(n.ElseList)
+		case *parse.TemplateNode:
+			visitPipe(n.Pipe, false)
+			inMethods := false
+			for _, rc := range stack {
+				if rc.over == "Methods" {
+					inMethods = true
+				}
+			}
+			if inMethods && subTemplateMentions(src, n.Name, map[string]bool{}) {
+				errs = append(errs, uniErr{"cross-method:template " + n.Name, int(n.Position()), fmt.Sprintf("the body of a range over methods invokes template %q, which refers to .Methods or .Mocks: method bodies are then not independent of the other methods", n.Name)})
+			}
 		case *parse.RangeNode:
 			// the ranged pipeline itself
 			rc := rangeCtx{}
@@ -563,8 +601,96 @@ func uniformity(src *tmpl.Source) (lens []int, errs []uniErr) {
 		}
 	}
 	visitNode(src.Tree.Root)
+	// sub-templates ({{define}}) start with an empty variable scope
+	var names []string
+	for name, t := range src.Trees {
+		if t != nil && t != src.Tree && t.Root != nil {
+			names = append(names, name)
+		}
+	}
+	sort.Strings(names)
+	for _, name := range names {
+		stack = nil
+		visitNode(src.Trees[name].Root)
+	}
 	sort.Ints(lens)
 	return lens, errs
+}
+
+// subTemplateMentions reports whether the named sub-template (or one it invokes)
+// mentions the method or mock lists.
+func subTemplateMentions(src *tmpl.Source, name string, seen map[string]bool) bool {
+	if seen[name] {
+		return false
+	}
+	seen[name] = true
+	t := src.Trees[name]
+	if t == nil || t.Root == nil {
+		return false
+	}
+	found := false
+	var visit func(n parse.Node)
+	visit = func(n parse.Node) {
+		if found || n == nil {
+			return
+		}
+		switch n := n.(type) {
+		case *parse.ListNode:
+			if n != nil {
+				for _, x := range n.Nodes {
+					visit(x)
+				}
+			}
+		case *parse.ActionNode:
+			visit(n.Pipe)
+		case *parse.IfNode:
+			visit(n.Pipe)
+			visit(n.List)
+			visit(n.ElseList)
+		case *parse.WithNode:
+			visit(n.Pipe)
+			visit(n.List)
+			visit(n.ElseList)
+		case *parse.RangeNode:
+			visit(n.Pipe)
+			visit(n.List)
+			visit(n.ElseList)
+		case *parse.TemplateNode:
+			visit(n.Pipe)
+			if subTemplateMentions(src, n.Name, seen) {
+				found = true
+			}
+		case *parse.PipeNode:
+			if n != nil {
+				for _, c := range n.Cmds {
+					for _, a := range c.Args {
+						visit(a)
+					}
+				}
+			}
+		case *parse.FieldNode:
+			for _, id := range n.Ident {
+				if id == "Methods" || id == "Mocks" {
+					found = true
+				}
+			}
+		case *parse.VariableNode:
+			for _, id := range n.Ident[1:] {
+				if id == "Methods" || id == "Mocks" {
+					found = true
+				}
+			}
+		case *parse.ChainNode:
+			visit(n.Node)
+			for _, id := range n.Field {
+				if id == "Methods" || id == "Mocks" {
+					found = true
+				}
+			}
+		}
+	}
+	visit(t.Root)
+	return found
 }
 
 // FreeNames computes K-FREE over all flag combinations on a representative shape.
